@@ -670,6 +670,7 @@ class NbSession:
                    numrecs_before=self.numrecs)
         if err:
             # SPEC for an erroneous call: safety only (judge); the generator stops using this rank's queue
+            self.last_err_named = [x for x in named if isinstance(x, Req)]
             self.poisoned[r] = True
             self.erroneous = True
             ann['completed'] = []
@@ -744,7 +745,8 @@ class NbSession:
         if retry and P and not self.indep_now:
             pass
         if retry and P:
-            q = P[0]
+            named = [x for x in (getattr(self, 'last_err_named', None) or []) if any(x is p_ for p_ in P)]
+            q = named[0] if named else P[0]
             if self.np == 1 or self.indep_now:
                 mode = 'i' if self.indep_now else 'c'
                 ln = self.emit('%d wait %d %s 1 %d' % (r, self.f, mode, q.slot))
@@ -1098,8 +1100,9 @@ def compare(sess, iv, rows):
                 for g in gets:
                     # the tag of an event is the line of the post; the request may no longer own a live slot
                     # (completion after the driver released it: only in histories derailed by an earlier finding)
-                    q = live_req(r, g[3])
-                    if q is None:
+                    q = sess.reqs.get((r, g[3]))
+                    if q is None or q.isput or len(g[5:]) != q.nelems * ELSIZE[q.v.xtype]:
+                        add('corr_C02_event', ln, r, 'completion event of the model does not match a posted get: tag %s' % g[3])
                         continue
                     q.sess_fmt = sess.fmt
                     e = unpack_err(q, g[5:])
@@ -1246,7 +1249,7 @@ def judge(sess, iv):
     DERAIL = {'post-rc', 'bput-refused', 'status', 'wait-rc', 'nreqs', 'late-or-early-delivery', 'id-not-reset',
               'no-observation', 'readback-rejected'}
     def fail(kind, key, ln, r, detail):
-        if ctx['key'] and not key.startswith('F'):
+        if ctx['key']:
             key = ctx['key']          # consequence of an earlier erroneous call (see the generator)
         fails.append(dict(kind=kind, key=key, line=ln, rank=r, detail=detail))
         if kind in DERAIL or ctx['key']:
@@ -1403,7 +1406,7 @@ def judge(sess, iv):
                         if es_[0] is not None and got[0] != es_[0]:
                             kk = 'F3:status-order-shortcut' if ann['shortcut'] else 'status-wrong'
                             x = ann['named'][i]
-                            if isinstance(x, Req) and not x.isput and got[0] == ERANGE and es_[0] == 0:
+                            if isinstance(x, Req) and not x.isput and {got[0], es_[0]} == {ERANGE, 0}:
                                 # a read buffer that was not (completely) filled is converted all the same
                                 mine = {(x.v.vid, j) for j in x.idxs}
                                 others = [p_ for p_ in ann['sel'] if (not p_.isput) and p_ is not x]
